@@ -223,10 +223,13 @@ def run(ctx, rep):
             if r != "ok":
                 continue
             for st in iter_stmts(fn.body):
-                if isinstance(st, ast.If) and any(x is n for x in ast.walk(st.test)) and any(isinstance(x, ast.Return) for x in st.body) and not isinstance(n.ops[0], ast.NotEq):
-                    pol_bad = (n, "returns early when the objective IS below this block, and keeps walking when it is not")
-                if isinstance(st, ast.While) and any(x is n for x in ast.walk(st.test)) and not isinstance(n.ops[0], ast.Eq):
-                    pol_bad = (n, "skips traces while the objective is NOT inside the zero-count loop")
+                if isinstance(st, (ast.If, ast.While)) and any(x is n for x in ast.walk(st.test)):
+                    # the sense of the comparison inside the test, `not`s folded in
+                    is_eq = isinstance(n.ops[0], ast.Eq) != (_nots_above(st.test, n) % 2 == 1)
+                    if isinstance(st, ast.If) and any(isinstance(x, ast.Return) for x in st.body) and is_eq:
+                        pol_bad = (n, "returns early when the objective IS below this block, and keeps walking when it is not")
+                    if isinstance(st, ast.While) and not is_eq:
+                        pol_bad = (n, "skips traces while the objective is NOT inside the zero-count loop")
         if pol_bad is not None and not bad:
             rep.violation("C08.5", cons, f"`{ast.unparse(pol_bad[0])}`: the walker {pol_bad[1]}: traces are visited out of order or never", f"{fn.path}:{pol_bad[0].lineno}")
             continue
@@ -251,6 +254,20 @@ def run(ctx, rep):
                 rep.violation("C08.5", cons, "the loop handler advances the trace index outside a test of the loop count: traces are skipped although the body runs", f"{vl.path}:{st.lineno}")
             else:
                 rep.violation("C08.5", cons, "a zero-count loop advances the trace index without testing that the next objective lies inside the loop: traces after the loop are skipped too and get no readout", f"{vl.path}:{st.lineno}")
+
+
+def _nots_above(root, node):
+    """Number of `not` operators between root and node."""
+    def go(e, k):
+        if e is node:
+            return k
+        for c in ast.iter_child_nodes(e):
+            r = go(c, k + (1 if isinstance(e, ast.UnaryOp) and isinstance(e.op, ast.Not) else 0))
+            if r is not None:
+                return r
+        return None
+    r = go(root, 0)
+    return r or 0
 
 
 def fl_parent_assert(fn, node):
